@@ -90,6 +90,11 @@ int snoopy_datasource_eusername (char * const resultBuf, size_t resultBufSize, _
         }
         buffpwd_uid = biggerBuf;
     }
+    if ((ENOENT == lookupStatus) || (ESRCH == lookupStatus)) {
+        // "No such entry" said the other way - this is how glibc answers when the database file itself is absent (minimal container, chroot)
+        lookupStatus = 0;
+        pwd_uid = NULL;
+    }
     if (0 != lookupStatus) {
         messageLength  = snprintf(resultBuf, resultBufSize, "ERROR(getpwuid_r)");
     } else {
